@@ -1,0 +1,22 @@
+//go:build verif
+
+// Contracts for the verifier in /verif (comment-only file; contributes no declarations).
+package processorlimiter
+
+//@ pure APIStreamI.GetType
+//@ dropped limiterProcessor).updateMetrics
+
+// the resource manager hands out the strategy object registered for the quota id (trusted; closed world of C01: a fixed-window strategy)
+//@ iface ResourceManagementI.GetQuota
+//@   modifies now
+//@   ensures result1 == nil ==> typeis(result0, *quotaresource.fixedWindow) && result0.(*quotaresource.fixedWindow) != nil && allocated(result0.(*quotaresource.fixedWindow))
+
+//@ func (*limiterProcessor).Execute
+//@   prop C01
+//@   devirt QuotaResourceI => *fixedWindow
+//@   requires[world] worldOK()
+//@   requires p.metaData != nil
+//@   allocates quota, map
+//@   modifies heap, gPendingInc, gLastAllowed, now
+//@   ensures[verdict] result1 == nil ==> ((result0.Name == "below_limit") <==> gLastAllowed) && (result0.Name == "below_limit" || result0.Name == "above_limit")
+//@   ensures[world] worldOK()
